@@ -76,6 +76,7 @@ struct Report {
   std::vector<uint64_t> states;                // abstract states visited
   std::vector<std::string> trace;
   js::Value history = js::Value::arr();        // short readable history for samples / replay files
+  js::Value replacement_plan;                  // set when the violating execution was a derived plan (enumeration): report and shrink that one
 
   void absorb(const Result &r) {
     fingerprint = hmix(fingerprint, r.fingerprint); shape = hmix(shape, r.shape);
@@ -101,7 +102,7 @@ template <class E> struct Driver {
     for (auto &kv : r.counters) c.set(kv.first, kv.second);
     v.set("counters", c);
     if (full) {
-      v.set("plan", E::to_json(p));
+      v.set("plan", r.replacement_plan.t == js::Value::OBJ ? r.replacement_plan : E::to_json(p));
       v.set("decisions", js::Value::arr_of(r.decisions));
       v.set("history", r.history);
     }
@@ -251,6 +252,7 @@ template <class E> struct Driver {
       Plan p = E::generate(seed, index, tier);
       Report r = E::execute(p, SchedSpec());
       if (r.cls.empty()) { printf("SHRINK no-violation\n"); return 3; }
+      if (r.replacement_plan.t == js::Value::OBJ) { p = E::from_json(r.replacement_plan); r = E::execute(p, SchedSpec()); }
       Report r2 = E::execute(p, SchedSpec());
       if (r2.fingerprint != r.fingerprint || r2.cls != r.cls) { printf("SHRINK nondeterministic fp %s vs %s\n", js::hex(r.fingerprint).c_str(), js::hex(r2.fingerprint).c_str()); return 2; }
       js::Value info;
